@@ -160,6 +160,10 @@ impl Search {
             self.log_uci_info(depth, Some(start.elapsed().as_millis()), &pv);
         }
 
+        // Mark the search as over before announcing the result, so that a `go` sent in
+        // reply to the bestmove is not mistaken for one sent during a running search
+        self.stop();
+
         // If not even the first iteration completed, fall back to any legal move
         let best_move = self
             .info
